@@ -23,9 +23,9 @@ RULE = (
 )
 ASSUMPTIONS = ["sys.addaudithook sees every open()/os-level mutation made from Python code in the process"]
 TIMEOUT = {"quick": 900, "thorough": 1800}
-MIN_NONTRIVIAL = {"quick": 12, "thorough": 150}
+MIN_NONTRIVIAL = {"quick": 12, "thorough": 60}
 REQUIRED_COUNTERS = ["history_ops", "audit_events_seen", "probe_comparisons"]
-N = 400
+N = 160
 
 
 def cases(tier, seed):
